@@ -194,6 +194,11 @@ def run(ctx):
             ok = any(t[3] is True and t[0] in ("in", "==", "is") and spec in (t[1].split(".")[0], t[2].split(".")[0], t[1], t[2]) for t in simple)
             why = "the returned actor is tied to the address by a positive membership / equality test"
         ok = ok and not consts
+        from sa.util import enclosing_loops as _el
+        if ok and _el(rt, r_) and isinstance(r_.value, ast.Call) and isinstance(r_.value.func, ast.Attribute) and r_.value.func.attr == "get":
+            c.ob("R10", False, rt, f"scan-returns-definite-actor:{norm(r_.value)[:30]}",
+                 f"'{stmt_text(r_)}' ends the scan of the candidates at the first entry recorded for the address even when that actor is gone (the lookup yields None): "
+                 f"a live actor recorded later for the same address is never found and the event is dropped", r_)
         c.ob("R10", ok, rt, f"actor-returned-for-its-address:{norm(r_.value)[:30]}", why if ok else
              f"'{stmt_text(r_)}' is reachable without a positive simple test that ties the actor to the address '{spec}' (guards: "
              f"{[norm(a) if pol else 'not ' + norm(a) for a, pol in atoms][-3:]}): an event can be delivered to an actor that was not addressed", r_)
@@ -245,6 +250,8 @@ def run(ctx):
     ok = bool(pops) and all(norm(x.args[0]) == cs.params[1] for x in pops)
     c.ob("R6", ok, cs, "cancel-pops-only-its-id", "cancel(id) removes and invokes exactly the canceller stored under that id" if ok else
          "cancel(id) does not pop exactly the given id", cs.node)
+    # ---- R15 a declared (even empty / falsy) input is handed to the spawned child ------------------------------
+    shared.none_is_the_only_absence(ctx, "R15", [("Interpreter", "_spawn_actor", "child_input"), ("SyncInterpreter", "_spawn_actor", "child_input")])
     # ---- R13 every child interpreter the engine creates is wired to its parent before it runs ---------------
     # (sendParent / escalate resolve through child.parent; addressing, the registry and the snapshot use child.id)
     n13 = 0
